@@ -10,8 +10,15 @@
 //! trusted: R15 (deep slices): remove_uncommitted_htlcs_and_mark_paused: the body of the inbound `retain` closure, the statement adjusting next_counterparty_htlc_id (operator captured) and the body of the outbound loop, verbatim; the resets of announcement / closing state around them are dropped and not claimed
 //! assume: HTLC amounts and balances <= 21e18 msat; |value_to_self_msat_diff| <= 4e18 while it is accumulated; the resulting balance lies between 0 and the channel value (representation invariant of the channel)
 //! plemma: C01 lemma_each_pending_htlc_exactly_once: an HTLC is never both an output of the next commitment and already credited to the claimer's balance, and a successfully claimed HTLC that is no longer an output is always credited (for both commitments)
+//! trusted: assume_specification for core::cmp::max / core::cmp::min (std definitions): present in every unit so that a change that introduces them is verified instead of being rejected by the tool
 use vstd::prelude::*;
 verus! {
+use vstd::std_specs::cmp::*;
+use core::cmp;
+pub assume_specification<T: core::cmp::Ord>[core::cmp::max::<T>](a: T, b: T) -> (r: T)
+    ensures T::obeys_cmp_spec() ==> r == (if b.cmp_spec(&a) == core::cmp::Ordering::Less { a } else { b });
+pub assume_specification<T: core::cmp::Ord>[core::cmp::min::<T>](a: T, b: T) -> (r: T)
+    ensures T::obeys_cmp_spec() ==> r == (if b.cmp_spec(&a) == core::cmp::Ordering::Less { b } else { a });
 use core::mem;
 pub struct InboundHTLCResolution {} pub struct InboundUpdateAdd {} pub struct OnionErrorPacket {} pub struct OnionPacket {}
 #[derive(Clone, Copy)] pub struct PaymentPreimage(pub [u8; 32]); pub struct AttributionData {} pub struct HTLCFailReason {}
